@@ -232,6 +232,121 @@ fn scenario_c07(param: u64) {
     drop(keep);
 }
 
+/// C05, multi-thread part: caller threads (one handle clone each) start QoS 1/2 publishes,
+/// subscribes and unsubscribes concurrently; the context then serves the queue, the broker
+/// acknowledges every request *in reverse wire order* with a reason string naming the request
+/// (failing reason codes for the publishes, so that the content reaches the caller), and every
+/// future must complete exactly once with the acknowledgement addressed to it.
+fn scenario_c05(param: u64) {
+    EXECUTIONS.fetch_add(1, Ordering::Relaxed);
+    let threads = 2 + (param % 3) as usize; // 2..4
+    let per_thread = 1 + ((param / 3) % 3) as usize; // 1..3
+    let back = ((param / 9) % 4) as u16;
+    let config = posim::scenario::Config { handles: threads, preset_ids: Some((if param % 2 == 0 { 65_535 - back } else { 250 + back }, 1 + (param % 90) as u32)), ..Default::default() };
+    let mut w = World::new(config);
+    let connect = ConnectSpec { client_id: Some("t".into()), ..Default::default() };
+    for s in [
+        Step::Start { connect, auths: vec![] },
+        Step::Settle { seed: 0 },
+        Step::Broker { pkt: BrokerPkt::Connack { session_present: false, reason: 0, props: Props::new() }, chunks: Chunks::Whole, hold: false },
+        Step::Settle { seed: 1 },
+    ] {
+        w.exec(&s);
+    }
+    // (request name, what the caller was told: the reason string of the acknowledgement it got)
+    let got: Arc<std::sync::Mutex<Vec<(String, String)>>> = Arc::new(std::sync::Mutex::new(Vec::new()));
+    poster::verif::set_sched_point(Some(Rc::new(|| shuttle::thread::sleep(std::time::Duration::ZERO))));
+    let mut joins = Vec::new();
+    for t in 0..threads {
+        let handle = w.handles[t].clone().expect("handle clone");
+        let got = got.clone();
+        joins.push(shuttle::thread::spawn(move || {
+            let waker = Waker::from(Arc::new(Noop));
+            let mut cx = Context::from_waker(&waker);
+            let mut futs: Vec<OpFuture> = Vec::new();
+            for j in 0..per_thread {
+                let mut h = handle.clone();
+                let got = got.clone();
+                let kind = (t * 3 + j * 5 + (param as usize / 7)) % 4;
+                let name = format!("n/{}", t * 100 + j);
+                let mut fut: OpFuture = Box::pin(async move {
+                    let told: String = match kind {
+                        0 => match h.publish(PublishOpts::new().qos(QoS::AtLeastOnce).topic_name(&name).payload(b"x")).await {
+                            Err(poster::error::MqttError::PubackError(e)) => e.reason_string().unwrap_or("<none>").to_string(),
+                            other => format!("{:?}", other.map_err(|e| e.to_string())),
+                        },
+                        1 => match h.publish(PublishOpts::new().qos(QoS::ExactlyOnce).topic_name(&name).payload(b"x")).await {
+                            Err(poster::error::MqttError::PubrecError(e)) => e.reason_string().unwrap_or("<none>").to_string(),
+                            other => format!("{:?}", other.map_err(|e| e.to_string())),
+                        },
+                        2 => match h.subscribe(SubscribeOpts::new().subscription(&name, SubscriptionOpts::new())).await {
+                            Ok(rsp) => rsp.reason_string().unwrap_or("<none>").to_string(),
+                            Err(e) => format!("Err({e})"),
+                        },
+                        _ => match h.unsubscribe(UnsubscribeOpts::new().topic_filter(&name)).await {
+                            Ok(rsp) => rsp.reason_string().unwrap_or("<none>").to_string(),
+                            Err(e) => format!("Err({e})"),
+                        },
+                    };
+                    got.lock().unwrap().push((name, told));
+                });
+                let _ = fut.as_mut().poll(&mut cx);
+                futs.push(fut);
+            }
+            futs
+        }));
+    }
+    let mut keep: Vec<OpFuture> = Vec::new();
+    for j in joins {
+        keep.extend(j.join().expect("caller thread"));
+    }
+    poster::verif::set_sched_point(None);
+    w.exec(&Step::Settle { seed: 2 });
+    // requests on the wire: (acknowledgement kind, packet identifier, name)
+    let reqs: Vec<(AckKind, u16, String)> = {
+        let a = Analysis::of(&w);
+        a.wire
+            .iter()
+            .filter_map(|p| match &p.pkt {
+                posim::refcodec::Packet::Publish(x) if x.qos == 1 => Some((AckKind::Puback, x.pid.unwrap(), x.topic.clone())),
+                posim::refcodec::Packet::Publish(x) if x.qos == 2 => Some((AckKind::Pubrec, x.pid.unwrap(), x.topic.clone())),
+                posim::refcodec::Packet::Subscribe(x) => Some((AckKind::Suback, x.pid, x.filters.first().map(|f| f.0.clone()).unwrap_or_default())),
+                posim::refcodec::Packet::Unsubscribe(x) => Some((AckKind::Unsuback, x.pid, x.filters.first().cloned().unwrap_or_default())),
+                _ => None,
+            })
+            .collect()
+    };
+    assert_eq!(reqs.len(), threads * per_thread, "C05/lost-request/threads: {} of {} requests on the wire", reqs.len(), threads * per_thread);
+    for (kind, pid, name) in reqs.iter().rev() {
+        let reason = match kind {
+            AckKind::Puback | AckKind::Pubrec => 0x80,
+            _ => 0,
+        };
+        let props = Props::new().with(posim::refcodec::pid::REASON_STRING, posim::refcodec::PropVal::Str(name.clone()));
+        w.exec(&Step::Broker { pkt: BrokerPkt::AckRaw { kind: *kind, pid: *pid, reasons: vec![reason], props, form: posim::refcodec::Form::Full }, chunks: Chunks::Whole, hold: false });
+    }
+    w.exec(&Step::Settle { seed: 3 });
+    let waker = Waker::from(Arc::new(Noop));
+    let mut cx = Context::from_waker(&waker);
+    let mut done = vec![false; keep.len()];
+    for _ in 0..3 {
+        for (k, f) in keep.iter_mut().enumerate() {
+            if !done[k] && f.as_mut().poll(&mut cx).is_ready() {
+                done[k] = true;
+            }
+        }
+        w.exec(&Step::Settle { seed: 4 });
+    }
+    w.finish();
+    let got = got.lock().unwrap().clone();
+    for (_, _, name) in &reqs {
+        let mine: Vec<&String> = got.iter().filter(|(n, _)| n == name).map(|(_, t)| t).collect();
+        assert!(mine.len() == 1 && mine[0] == name, "C05/wrong-ack/threads: request {name} was told {:?}, expected exactly its own acknowledgement", mine);
+    }
+    MAX_REQUESTS.fetch_max(reqs.len() as u64, Ordering::Relaxed);
+    drop(keep);
+}
+
 fn write_evidence(prop: &str, out: &str, tier: &str, seed: u64, wall: f64, violations: u64, schedulers: &[(&str, u64)], sample: serde_json::Value) {
     // merged into the single-task evidence file by the check script (see tools/merge_c11.py)
     let ev = serde_json::json!({
@@ -248,6 +363,14 @@ fn write_evidence(prop: &str, out: &str, tier: &str, seed: u64, wall: f64, viola
     std::fs::write(format!("{out}/evidence/{prop}.threads.json"), serde_json::to_string_pretty(&ev).unwrap()).expect("write evidence");
 }
 
+fn run_scenario(prop: &str, param: u64) {
+    match prop {
+        "C07" => scenario_c07(param),
+        "C05" => scenario_c05(param),
+        _ => scenario(param),
+    }
+}
+
 fn main() {
     let args: Vec<String> = std::env::args().skip(1).collect();
     let flag = |name: &str| -> Option<String> { args.iter().position(|a| a == name).and_then(|i| args.get(i + 1).cloned()) };
@@ -261,8 +384,8 @@ fn main() {
             let param: u64 = path.rsplit('/').next().and_then(|f| f.split('-').nth(2)).and_then(|s| s.parse().ok()).expect("parameter in file name");
             // the file name also says which property's scenario it belongs to
             let prop: String = path.rsplit('/').next().and_then(|f| f.split('-').next()).unwrap_or("C11").to_string();
-            let is_c07 = prop == "C07";
-            let r = catch_unwind(AssertUnwindSafe(|| shuttle::replay_from_file(move || if is_c07 { scenario_c07(param) } else { scenario(param) }, path)));
+            let which = prop.clone();
+            let r = catch_unwind(AssertUnwindSafe(|| shuttle::replay_from_file(move || run_scenario(&which, param), path)));
             match r {
                 Err(e) => {
                     let msg = e.downcast_ref::<String>().cloned().or_else(|| e.downcast_ref::<&str>().map(|s| s.to_string())).unwrap_or_default();
@@ -284,12 +407,11 @@ fn main() {
         }
         Some("check") => {
             let tier = flag("--tier").unwrap_or_else(|| "quick".into());
-            let is_c07 = prop == "C07";
-            let (params, iters): (u64, usize) = match (is_c07, tier == "thorough") {
-                (false, true) => (72, 30_000),
-                (false, false) => (48, 2_000),
-                (true, true) => (24, 20_000),
-                (true, false) => (24, 1_500),
+            let (params, iters): (u64, usize) = match (prop.as_str(), tier == "thorough") {
+                ("C11", true) => (72, 30_000),
+                ("C11", false) => (48, 2_000),
+                (_, true) => (24, 20_000),
+                (_, false) => (24, 1_500),
             };
             let t0 = Instant::now();
             let replay_dir = format!("{out}/replays");
@@ -310,9 +432,11 @@ fn main() {
                     let s = seed.wrapping_mul(1_000_003).wrapping_add(k);
                     let r = catch_unwind(AssertUnwindSafe(|| {
                         if *sched == "random" {
-                            Runner::new(RandomScheduler::new_from_seed(s, iters), cfg).run(move || if is_c07 { scenario_c07(param) } else { scenario(param) });
+                            let which = prop.clone();
+                            Runner::new(RandomScheduler::new_from_seed(s, iters), cfg).run(move || run_scenario(&which, param));
                         } else {
-                            Runner::new(PctScheduler::new_from_seed(s, 3, iters / 2), cfg).run(move || if is_c07 { scenario_c07(param) } else { scenario(param) });
+                            let which = prop.clone();
+                            Runner::new(PctScheduler::new_from_seed(s, 3, iters / 2), cfg).run(move || run_scenario(&which, param));
                         }
                     }));
                     totals[si].1 += if *sched == "random" { iters as u64 } else { (iters / 2) as u64 };
@@ -350,7 +474,7 @@ fn main() {
             std::process::exit(if violations > 0 { 1 } else { 0 });
         }
         _ => {
-            eprintln!("usage: posim-threads check [--prop C11|C07] [--tier quick|thorough] [--seed N] [--out DIR] | replay <schedule file>");
+            eprintln!("usage: posim-threads check [--prop C11|C07|C05] [--tier quick|thorough] [--seed N] [--out DIR] | replay <schedule file>");
             std::process::exit(2);
         }
     }
